@@ -48,7 +48,7 @@ VARIABLE r
 Ops ==      {[op |-> "Unit", d |-> d, a |-> i, b |-> 0, set |-> <<>>] : d \in Regs, i \in Coords}
        \cup {[op |-> "FromSet", d |-> d, a |-> 0, b |-> 0, set |-> SetToSortSeq(S, <)] : d \in Regs, S \in SUBSET Coords}
        \cup {[op |-> x, d |-> d, a |-> a, b |-> 0, set |-> <<>>] : x \in {"Copy", "Assign", "PlusAssign"}, d \in Regs, a \in Regs}
-       \cup {o \in {[op |-> x, d |-> d, a |-> a, b |-> 0, set |-> <<>>] : x \in {"Move", "MoveAssign", "Swap"}, d \in Regs, a \in Regs} : o.a # o.d}
+       \cup {o \in {[op |-> x, d |-> d, a |-> a, b |-> 0, set |-> <<>>] : x \in {"Move", "MoveAssign", "Swap"}, d \in Regs, a \in Regs} : o.a # o.d \/ o.op # "Move"}   \* a = std::move(a) and swap(a, a) keep the value
        \cup {[op |-> "Plus", d |-> d, a |-> a, b |-> b, set |-> <<>>] : d \in Regs, a \in Regs, b \in Regs}
        \cup {[op |-> "Dot", d |-> 0, a |-> a, b |-> b, set |-> <<>>] : a \in Regs, b \in Regs}
        \cup {[op |-> "DotSet", d |-> 0, a |-> a, b |-> 0, set |-> SetToSortSeq(S, <)] : a \in Regs, S \in SUBSET Coords}
